@@ -234,6 +234,8 @@ class YPPrologVisitor(prologVisitor):
 
     def visitClause(self,ctx):
         lhs = self.visitSimplepredicate(ctx.simplepredicate())
+        if isinstance(lhs, Predicate) and not re.fullmatch(r'[A-Za-z_][A-Za-z0-9_]*', lhs.name()):
+            raise CompilerError(self.context.current_source_file, ctx.simplepredicate(), f"'{lhs.name()}' cannot be used as a predicate name")
         if ctx.predicateexpression():
             rhs = self.visitPredicateexpression(ctx.predicateexpression())
         else:
